@@ -176,6 +176,19 @@ def get_paths(nseg):
                     yield "//" + "/".join(parts)
 
 
+def get_abs_paths(base):
+    """GET paths that spell an ABSOLUTE file-system path behind one or more leading slashes (a join that keeps a leading slash discards the static folder)"""
+    rels = ["top.sql", "outside/o.sql", "static_sib/x.js", "root/in.sql", "static/index.html", "static/asset/a.js", "outside", ""]
+    for r in rels:
+        ab = base + ("/" + r if r else "")
+        for pre in ("", "/", "//", "/./", "/asset/..", "/asset//"):
+            yield pre + ab
+        yield "/" + ab.lstrip("/")
+        yield "/%2F" + ab.lstrip("/")
+    for ab in ("/etc/hostname", "//etc/hostname", "///etc/hostname", "/etc/", "//etc"):
+        yield ab
+
+
 ROUTES = ["script", "dir_f", "dir_d", "lineage"]
 
 
@@ -217,7 +230,7 @@ def _worker(payload):
         res.labels[f"post_requests({root_setting})"] += res.evals
         n0 = res.evals
         if root_setting == "abs":
-            for path in get_paths(nseg):
+            for path in itertools.chain(get_paths(nseg), get_abs_paths(base)):
                 idx += 1
                 if idx % nshards != shard:
                     continue
@@ -226,7 +239,7 @@ def _worker(payload):
                 nt += isnt
                 d = judge(client, markers, "GET", path)
                 if d is not None and len(res.violations) < 40:
-                    res.violation("get", {"route": "GET", "root_setting": root_setting, "path": path}, d)
+                    res.violation("get", {"route": "GET", "root_setting": root_setting, "path": path.replace(base, "<BASE>")}, d)
             res.labels["get_requests"] += res.evals - n0
     finally:
         os.chdir(cwd)
